@@ -405,7 +405,7 @@ class SpecEval:
             if name == 'startswith': return mk_bool(ops.str_startswith(s, args[0].term))
             if name == 'endswith': return mk_bool(ops.str_endswith(s, args[0].term))
             if name == 'lower': return mk_str(slower(s))
-            if name == 'strip' and not args: return mk_str(sstrip(s))
+            if name == 'strip' and not args: return mk_str(self.uf(contracts.SPECFNS['stripped'])(s))
         if isinstance(recv.ty, TDict):
             if name == 'get':
                 k = coerce(args[0], recv.ty.k).term
